@@ -22,7 +22,9 @@ class C09(BaseCheck):
           'attempt and the start of the next are >= initial_wait, grow until they reach max_wait and never '
           'exceed it; (c) bounded recovery: a request arrives at the endpoint within max_wait + attempt '
           'duration + delta after it became reachable; (d) no connect attempt after DispatcherClose() and no '
-          'connection left open on the client side afterwards. '
+          'connection left open on the client side afterwards (the close is either a plain DispatcherClose() at a '
+          'quiet moment, during an outage, or the caller\'s reaction to the error of the call that discovers a dead '
+          'connection). '
           'Every 4th case instead has 2-3 endpoints that all become unreachable at once and one of them '
           'returns ((c) and (d) only); every 8th has 3-4 endpoints behind the heap balancer of which two go '
           'down one after the other and come back in either order while the rest stay healthy ((c) with a '
@@ -32,7 +34,7 @@ class C09(BaseCheck):
              'scales.resurrector:ResurrectorSink.AsyncProcessRequest', 'scales.resurrector:ResurrectorSink.Close')
   REQUIRED_ANCHORS = ANCHORS
   REQUIRED_CLASSES = ('thrift', 'mux', 'multi-endpoint', 'outage:refuse', 'outage:blackhole', 'down-at-first-connect', 'recovered',
-                      'fail-fast-seen', 'backoff-capped', 'closed-while-down', 'staggered-outages',
+                      'fail-fast-seen', 'backoff-capped', 'closed-while-down', 'closed-on-error', 'staggered-outages',
                       'recover:first-down-first', 'recover:last-down-first')
   ASSUMPTIONS = ('initial_wait_interval > 1 (the implementation\'s x**exponent back-off only grows above 1)',
                  'black-holed connects give up after 3 s in these scenarios (SYN timeout shortened so that '
@@ -235,8 +237,31 @@ class C09(BaseCheck):
           c.close_by_server('rst')
       outages.append({'start': env.now, 'end': None, 'mode': srv.sim.mode, 'final': True})
       tick(int(rng.choice([3, 12, 40]) / delta))
-    w.close()
-    t_close = env.now
+    closed_at = []
+    if not closed_while_down and rng.random() < 0.4:
+      # the application closes the client as its reaction to a failed call: the connection has
+      # just died (the endpoint itself stays reachable, so a reconnect loop that survives the
+      # close would succeed), a call discovers it, and the caller closes on the error
+      import gevent
+      classes.add('closed-on-error')
+      for c in srv.sim.conns:
+        if not c.client_closed:
+          c.close_by_server('rst')
+      rec = w.call('echo', None, timeout=1.0)
+
+      def caller():
+        try:
+          rec['ar'].get()
+        except BaseException:  # noqa
+          w.close()
+          closed_at.append(env.now)
+      if rec.get('ar') is not None:
+        gevent.spawn(caller)
+      env.advance(1.5)
+    if not closed_at:
+      w.close()
+      closed_at.append(env.now)
+    t_close = closed_at[0]
     env.advance(3 * mx + 10)
 
     # ---------------------------------------------------------------- oracles
